@@ -53,6 +53,8 @@ def afterC (copies : Bool) : Conv → Val → Val
   | .tagged _ tag _ .internal, v => if copies then v else popTag tag v
   | .seq _ c, v => mapSeqV (afterC copies c) v
   | .nested c, v => mapSeqV (afterC copies c) v
+  -- both members run on the same argument: `c` on the value, then `seq "list" c` on its items
+  | .vol c, v => mapSeqV (afterC copies c) (afterC copies c v)
   | .tuple cs, v => zipSeqV (afterCs copies cs) v
   | .union cs, v => foldApply (afterCs copies cs) v
   | .dict _ _ vc, v => mapValsV (fun _ x => afterC copies vc x) v
